@@ -157,7 +157,7 @@ func TestVerifBigIntBridge(t *testing.T) {
 	check := func(what string, got *BigInt, want *big.Int) {
 		if got.MathBigInt().Cmp(want) != 0 || got.Sign() != want.Sign() || got.String() != want.String() || got.BitLen() != want.BitLen() ||
 			got.IsInt64() != want.IsInt64() || got.IsUint64() != want.IsUint64() || got.Uint64() != want.Uint64() || got.Int64() != want.Int64() || got.Bit(0) != want.Bit(0) {
-			t.Fatalf("%s: got %s want %s", what, got.String(), want.String())
+			t.Fatalf("%s: got %s (sign %d, inline %v) want %s (sign %d)", what, got.String(), got.Sign(), got.isInline(), want.String(), want.Sign())
 		}
 		if got.Sign() == 0 && (got.Cmp(new(BigInt)) != 0 || got._inner == negSentinel) {
 			t.Fatalf("%s: negative zero", what)
@@ -213,6 +213,33 @@ func TestVerifBigIntBridge(t *testing.T) {
 				}
 				if x.Cmp(y) != wx.Cmp(wy) || x.CmpAbs(y) != wx.CmpAbs(wy) {
 					t.Fatalf("Cmp(%s,%s)", xs, ys)
+				}
+				// GCD with Bezout outputs: math/big itself can hand back a negative zero
+				// (x.neg = !x.neg on a zero cosequence); the comparison is against the normalised value
+				{
+					norm := func(w *big.Int) *big.Int {
+						if len(w.Bits()) == 0 {
+							return new(big.Int)
+						}
+						return w
+					}
+					a, b := mk(xs, rep&1 != 0), mk(ys, rep&2 != 0)
+					var g, bx, by BigInt
+					bx.SetInt64(5)
+					wg, wbx, wby := new(big.Int), new(big.Int), new(big.Int)
+					wg.GCD(wbx, wby, wx, wy)
+					g.GCD(&bx, &by, a, b)
+					check("GCD.z "+xs+" "+ys, &g, norm(wg))
+					check("GCD.x "+xs+" "+ys, &bx, norm(wbx))
+					check("GCD.y "+xs+" "+ys, &by, norm(wby))
+					var g2, bx2 BigInt
+					g2.GCD(&bx2, nil, a, a)
+					wg.GCD(wbx, nil, wx, wx)
+					check("GCD.x(a,a) "+xs, &bx2, norm(wbx))
+					var s2 BigInt
+					s2.SetInt64(-3)
+					check("SetMathBigInt(GCD x) "+xs, s2.SetMathBigInt(wbx), norm(wbx))
+					cases += 5
 				}
 				var n1, a1, s1 BigInt
 				check("Neg", n1.Neg(x), new(big.Int).Neg(wx))
